@@ -204,3 +204,100 @@ def count_discs_bounds(orc, discs):
         for i, (l, h) in zip(rest, orc.count([discs[i] for i in rest])):
             lo[i] = max(lo[i], l); hi[i] = h if hi[i] is None else min(hi[i], h)
     return [(lo[i], hi[i]) for i in range(n)]
+
+
+def certify_records_grouped(ctx, recs, max_bits=400, max_degree=24, workers=16, slack=16, timeout=300):
+    """Like certify_records, but (1) records with the same exact equation share ONE certified oracle (certified at
+    the finest resolution any of them needs, capped at max_bits), (2) all certificates are checked in one pool,
+    each at its own resolution (max_bits may be a function of the degree).  rec["group"] is the group key; records of a group must be queried sequentially
+    (the oracle is one subprocess).  Returns the list of groups (lists of records) that got an oracle."""
+    groups = collections.OrderedDict()
+    for rec in recs:
+        r = rec["res"]
+        if r.kind != "ok":
+            rec["why"] = "solve:" + r.kind; continue
+        try:
+            poly = full_poly_of_result(r)
+        except OracleError as e:
+            rec["why"] = "transform:%s" % e; continue
+        if poly is None:
+            rec["why"] = "inexact-input"; continue
+        rec["poly"] = poly
+        if len(poly) - 1 > max_degree:
+            rec["why"] = "degree-cap"; continue
+        tgt = min_radius_log2(S.discs_of(r), floor=-10 ** 9) - slack
+        mb = max_bits(len(poly) - 1) if callable(max_bits) else max_bits
+        if tgt < -mb:
+            rec["why"] = "precision-cap"; tgt = -mb
+        rec["target"] = tgt
+        key = tuple(poly)
+        rec["group"] = key
+        groups.setdefault(key, []).append(rec)
+    keys = list(groups)
+    oracles = [Oracle(list(k)) for k in keys]
+    targets = [min(r["target"] for r in groups[k]) for k in keys]
+    import time
+    def cert1(ot):
+        t0 = time.time()
+        try: ok = ot[0].certify(ot[1], timeout=timeout)
+        except Exception as e:
+            ok = False; ot[0].why = "exception %r" % (e,)
+        return ok, time.time() - t0
+    # longest first, so that the pool does not end on a straggler
+    order = sorted(range(len(keys)), key=lambda i: -(len(keys[i]) ** 2) * (targets[i] ** 2))
+    res = par_map(cert1, [(oracles[i], targets[i]) for i in order], workers=workers)
+    oks = [False] * len(keys); secs = [0.0] * len(keys)
+    for i, (ok, dt) in zip(order, res): oks[i] = ok; secs[i] = dt
+    out = []
+    for k, o, ok, t, dt in zip(keys, oracles, oks, targets, secs):
+        for rec in groups[k]: rec["cert_s"] = round(dt, 1)
+        if ok:
+            for rec in groups[k]: rec["oracle"] = o; rec["target_used"] = t
+            out.append(groups[k])
+        else:
+            for rec in groups[k]:
+                rec["why"] = (rec["why"] + " " if rec["why"] else "") + "uncertified:%s" % (getattr(o, "why", ""),)
+            try: o.close()
+            except Exception: pass
+    return out
+
+
+def count_and_cover(orc, discs):
+    """One pass over `discs` (exact (re, im, r) triples): returns (counts, cover, uncovered) where counts[i] = (lo, hi)
+    for disc i, cover[j] = indices of the discs that certainly contain certified root j, uncovered[j] = root j is
+    certainly in none of the discs.  Same answers as Oracle.count + Oracle.cover, with each disc sent once."""
+    orc._need()
+    orc._send("cleardiscs\n")
+    counts = orc.count(discs)
+    orc._send("cover\n")
+    l = orc._line(); assert l.startswith("COVER")
+    u = orc._line(); assert u.startswith("UNCOVERED")
+    orc._line()
+    orc._send("cleardiscs\n")
+    cover = [[] if tok == "-" else [int(x) for x in tok.split(",")] for tok in l.split()[1:]]
+    return counts, cover, [x == "1" for x in u.split()[1:]]
+
+
+def judge_discs(orc, discs):
+    """Bounds and coverage for returned discs, cheap first: a short INNER disc (contained in the returned disc)
+    gives valid lower bounds / 'covered', a short OUTER disc (containing it) gives valid upper bounds /
+    'certainly uncovered'; only what stays open is asked again with the full-length numbers.
+    discs: (re, im, r) with r finite.  Returns (bounds [(lo, hi)], covered [bool per certified root],
+    uncovered [bool per certified root: certainly in no disc])."""
+    n = len(discs)
+    inner = [inner_disc(d) or (d[0], d[1], Fr(0)) for d in discs]
+    outer = [outer_disc(d) for d in discs]
+    ci, cov_i, _ = count_and_cover(orc, inner)
+    co, _, unc_o = count_and_cover(orc, outer)
+    lo = [c[0] for c in ci]; hi = [c[1] for c in co]
+    covered = [bool(l) for l in cov_i]; uncovered = list(unc_o)
+    open_d = [i for i in range(n) if lo[i] != hi[i] and hi[i] != 0]
+    open_r = [j for j in range(len(covered)) if not covered[j] and not uncovered[j]]
+    if open_r:
+        cf, cov_f, unc_f = count_and_cover(orc, discs)
+        for i in range(n): lo[i] = max(lo[i], cf[i][0]); hi[i] = min(hi[i], cf[i][1])
+        for j in open_r: covered[j] = bool(cov_f[j]); uncovered[j] = unc_f[j]
+    elif open_d:
+        for i, (l, h) in zip(open_d, orc.count([discs[i] for i in open_d])):
+            lo[i] = max(lo[i], l); hi[i] = min(hi[i], h)
+    return [(lo[i], hi[i]) for i in range(n)], covered, uncovered
